@@ -33,8 +33,8 @@ CallAct(t, op) == CASE op = "connect" -> StartGet(t)
                     [] OTHER -> FALSE
 RetAct(t) == CASE E.op = "connect" /\ E.res = "ok" -> (Fairy(t) /\ P.recConn[Rec(t)] = E.id)
                [] E.op = "connect" -> (Me(t).pc = "idle" /\ Me(t).res = E.res /\ UNCHANGED vars)
-               [] E.op = "soft" -> (Me(t).pc = "holding" /\ UNCHANGED vars)
-               [] OTHER -> (Me(t).pc = "idle" /\ Me(t).res = "ok" /\ UNCHANGED vars)
+               [] E.op = "soft" -> (E.res = "ok" /\ Me(t).pc = "holding" /\ UNCHANGED vars)
+               [] OTHER -> (E.res = "ok" /\ Me(t).pc = "idle" /\ Me(t).res = "ok" /\ UNCHANGED vars)
 Consume(t) == /\ Live /\ E.t = t
               /\ CASE E.k = "call" -> CallAct(t, E.op)
                    [] E.k = "run" -> (UNCHANGED vars \/ Internal(t))
